@@ -5,7 +5,8 @@ open Wire
 /-!
 Driver for C09.  Lines as in harness/cmd/h_c09/main.go:
 `reset <level|mem>` | `add <ver> <hash> <prev|-> <k>=<v>,...|-` | `del <ver> <hash>` |
-`getv <k> <ver>` | `trash <ver>` | `maxv` | `dump` | `sget <hash> <k>`.
+`getv <k> <ver>` | `trash <ver>` | `maxv` | `dump` | `sget <hash> <k>` |
+`iadd …` / `idel …` (the same through MVCCIter) | `ilist` (the "last" records through MVCCIter.Iterator).
 -/
 
 namespace DrvC09
@@ -63,6 +64,22 @@ def step (st : Option State) (line : String) : Option State × String :=
       let (s', r) := add s ver hash prev kvs
       (some s', showRes r)
     | _, _, _, _ => bad
+  | ["iadd", ver, hash, prev, kvs], some s =>
+    match parseVer ver, unhexN hash, unhexN prev, parseKVs kvs with
+    | some ver, some hash, some prevB, some kvs =>
+      if hash.length < 16 then bad else
+      let prev := if prev == "-" then none else some prevB
+      let (s', r) := iterAdd s ver hash prev kvs
+      (some s', showRes r)
+    | _, _, _, _ => bad
+  | ["idel", ver, hash], some s =>
+    match parseVer ver, unhexN hash with
+    | some ver, some hash =>
+      if hash.length < 16 then bad else
+      let (s', r) := iterDel s ver hash
+      (some s', showRes r)
+    | _, _ => bad
+  | ["ilist"], some s => (st, dump s.last)
   | ["del", ver, hash], some s =>
     match parseVer ver, unhexN hash with
     | some ver, some hash =>
